@@ -6,7 +6,29 @@ import repo_check as rc
 import onlyver
 from repo_check import W, T, CI, RC
 
-ORACLES = [rc.o1_content_addressed, rc.o4_restore_versions, onlyver.oracle]
+def o4_versions_of_tracked_paths_kept(steps, cfg, history):
+    """C04: after any command without --force, every recorded version (current or earlier) of a path that is still tracked and was
+    not a target of remove/untrack keeps its object if it had one before (seeded change C04-5: untrack looked at the CURRENT versions
+    of the other paths only)"""
+    out = []
+    for st in steps:
+        c = st['cmd']
+        pre, post = st['pre'], st['post']
+        if pre is None or post is None or st['rc'] not in (0, 1) or rc.is_force(c) or c['op'] in ('write', 'delete', 'emptydir', 'link'):
+            continue
+        targets = set(c.get('targets', [])) if c['op'] in ('remove', 'untrack') else set()
+        for q, r in post.recs.items():
+            if q in targets or q not in pre.recs:
+                continue
+            for d in pre.recs[q]['hist']:
+                rel = rc.rec_addr(pre.recs[q], q, d)
+                if rel in pre.cache and rel not in post.cache:
+                    out.append((f"step {st['i']} {rc.show_cmd(c)}: the object {rel} of a recorded version of the still tracked {q} was deleted",
+                                {'kind': 'version-of-tracked-path-deleted'}))
+    return out
+
+
+ORACLES = [rc.o1_content_addressed, rc.o4_restore_versions, onlyver.oracle, o4_versions_of_tracked_paths_kept]
 RESTORE = dict(old_commits=True)
 
 
